@@ -122,6 +122,10 @@ def selftestCases : List (String × String × String) := [
     "77d6576238657b203b19ca42c18a0497f16b4844e3074ae8dfdffa3fede21442fcd0069ded0948f8326a753a0fc81f17e8d3e0fb2e0d3628cf35e20c38d18906"),
   ("scrypt impl rfc7914 2", hex (Scrypt.Impl.scrypt (ofStr "password") (ofStr "NaCl") 1024 8 16 64),
     "fdbabe1c9d3472007856e7190d01e9fe7c6ad7cbc8237830e77376634b3731622eaf30d92e22a3886ff109279d9830dac727afb94a83ee6d8360cbdfa2cc0640"),
+  ("scrypt src (translated scrypt.rs) rfc7914 1", hex (ScryptSrc.scrypt [] [] 16 1 1 64),
+    "77d6576238657b203b19ca42c18a0497f16b4844e3074ae8dfdffa3fede21442fcd0069ded0948f8326a753a0fc81f17e8d3e0fb2e0d3628cf35e20c38d18906"),
+  ("scrypt src (translated scrypt.rs) scrypt.rs vector 1", hex (ScryptSrc.scrypt (ofStr "password") (ofStr "salt") 2 10 10 32),
+    "482c858e229055e62f41e0ec819a5ee18bdb87251a534f75acd95ac5e50aa15f"),
   ("chacha20 block rfc8439 2.3.2", hex (chachaBlock (words32le ((List.range 32).map UInt8.ofNat)) 1 (words32le (unhex "000000090000004a00000000"))),
     "10f1e7e4d13b5915500fdd1fa32071c4c7d1f4c733c068030422aa9ac3d46c4ed2826446079faa0914c2d705d98b02a2b5129cd1de164eb9cbd083e8a2503c4e"),
   ("poly1305 rfc8439 2.5.2", hex (poly1305 (unhex "85d6be7857556d337f4452fe42d506a80103808afb0db2fd4abff6af4149f51b") (ofStr "Cryptographic Forum Research Group")),
@@ -199,6 +203,8 @@ def handle (kc : KdfCache) (line : String) : IO String := do
     pure ("ok " ++ hexOrDash (Scrypt.Spec.scrypt (unhex p) (unhex s) n.toNat! r.toNat! pp.toNat! len.toNat!))
   | ["scrypt_impl", p, s, n, r, pp, len] =>
     pure ("ok " ++ hexOrDash (Scrypt.Impl.scrypt (unhex p) (unhex s) n.toNat! r.toNat! pp.toNat! len.toNat!))
+  | ["scrypt_src", p, s, n, r, pp, len] =>
+    pure ("ok " ++ hexOrDash (ScryptSrc.scrypt (unhex p) (unhex s) n.toNat! r.toNat! pp.toNat! len.toNat!))
   | ["x25519", k, u] => pure (fmtOpt (X25519.x25519 (unhex k) (unhex u)))
   | ["x25519_pub", k] => pure (fmtOpt (X25519.pubOf (unhex k)))
   | ["aead_seal", k, n, ad, p] => pure ("ok " ++ hex (aeadSeal (unhex k) (unhex n) (unhex ad) (unhex p)))
